@@ -161,6 +161,29 @@ Section Read.
     - rewrite L. constructor.
   Qed.
 
+  (* the same, with the responses section tied to the section table *)
+  Theorem load_metadata_in_bounds_layout (bs : bytes) v m :
+    lenN bs < two64 -> load_metadata x509_ok bs = Ok (v, m) ->
+    exists fb t0 ss sos before resp_len,
+      load_header bs = Ok (v, fb, t0, ss, sos) /\
+      sos = before ++ [(sec_responses, resp_len)] /\
+      section_span sos sec_responses = Some (sum_lens before, resp_len) /\
+      ss + sum_lens sos <= lenN bs /\
+      Forall (in_bounds (ss + sum_lens before) resp_len) (m_locs m).
+  Proof.
+    intros Hlen H.
+    destruct (load_metadata_layout bs v m Hlen H) as [fb [t0 [ss [sos [before [rl F]]]]]].
+    pose proof (layout_locs _ _ _ _ _ _ _ _ _ Hlen F) as L. destruct F.
+    exists fb, t0, ss, sos, before, rl.
+    assert (Hfit : ss + sum_lens before + rl <= lenN bs).
+    { pose proof (section_span_bound _ _ _ _ lf_span0). lia. }
+    repeat (split; [assumption|]).
+    destruct (section_span sos sec_index) as [[io il]|].
+    - destruct L as [contents [taint [tn [_ [_ Hi]]]]].
+      eapply index_result_in_bounds; eauto.
+    - rewrite L. constructor.
+  Qed.
+
   (* ---- the loop of Read over the locations ------------------------------------------ *)
   Lemma load_all_cons bs l t acc :
     load_all bs (l :: t) acc =
